@@ -1041,6 +1041,7 @@ def d7_predicates(prog, rep):
         other = ('arg', 2, f.names.get(2))
         conds = [cn for gl in f.guards().values() for cn, v in gl]
         sign_aware = False
+        sign_by_product = False
         uses_reldiff = False
         for cn in conds:
             for z in subterms(cn):
@@ -1051,9 +1052,12 @@ def d7_predicates(prog, rep):
                     sign_aware = True
                 if tag(z) == 'call' and (z[1].endswith('::signum') or z[1].endswith('is_sign_negative') or z[1].endswith('is_sign_positive')):
                     sign_aware = True
-                if tag(z) == 'bin' and z[1] == 'Mul' and z[4] == 'f64' and _reads(z[2], me) and _reads(z[3], other):
-                    sign_aware = True
-        if sign_aware:
+                if tag(z) == 'bin' and z[1] == 'Mul' and z[4] == 'f64' and ((_reads(z[2], me) and _reads(z[3], other)) or (_reads(z[2], other) and _reads(z[3], me))):
+                    sign_by_product = True
+        if sign_by_product and not sign_aware:
+            rep.viol('predicate', key, 'close_to tells opposite signs apart by the sign of the product a*b: the product of two values below about 1.5e-162 in '
+                     'magnitude underflows to -0.0, which is not < 0, so tiny values of opposite sign are equated (and a NaN element no longer forces false)', site_of(f.body))
+        elif sign_aware:
             rep.ok('predicate', key, 'close_to depends on the signed difference / signs of the elements')
         elif uses_reldiff:
             rep.viol('predicate', key, 'close_to decides only through approx_eq::rel_diff(a, b), which takes |a| and |b| first (approx_eq 0.1.8 src/lib.rs): '
